@@ -3,10 +3,11 @@
 # /repo (outside /repo and /verif, removed afterwards) and the named property check must fail /
 # pass. Exit 0 iff every case behaves as expected.
 cd /verif
-bad=0; n=0
+bad=0; n=0; only="${1:-}"
 while IFS=$'\t' read -r expect prop file expr why; do
   case "$expect" in \#*|"") continue;; esac
   [[ "$why" == placeholder* ]] && continue
+  if [ -n "$only" ] && [[ "$why" != *"$only"* ]] && [ "$prop" != "$only" ]; then continue; fi
   n=$((n+1))
   out=$(scripts/mutrun.sh "$expr" "$file" -- check "$prop" 2>&1); rc=$?
   if echo "$out" | grep -q "MUTATION DID NOT APPLY\|MUTANT DOES NOT BUILD"; then echo "SKIP  $prop $why: $(echo "$out" | grep -m1 MUTA)"; bad=$((bad+1)); continue; fi
